@@ -107,6 +107,18 @@ FRAMES += [
 ]
 
 FRAMES += [
+    # a static method reached through an expression that is neither the class name nor a plain instance name: the method must stay (or every
+    # such reference must follow it)
+    "class K:\n    @staticmethod\n    def {v}(x):\n        return x * 2\n\n    def run(self):\n        return type(self).{v}(3) + K.{v}(1)\n\n\nprint(K().run())\n",
+    "class K:\n    @staticmethod\n    def {v}(x):\n        return x * 2\n\n    def run(self):\n        return self.__class__.{v}(3) + K.{v}(1)\n\n\nprint(K().run())\n",
+    "class K:\n    @staticmethod\n    def {v}(x):\n        return x * 2\n\n\nitems = [K()]\nprint(items[0].{v}(2) + K.{v}(1))\n",
+    "class K:\n    @staticmethod\n    def {v}(x):\n        return x * 2\n\n\ndef make():\n    return K()\n\n\nprint(make().{v}(2) + K.{v}(1))\n",
+    "class K:\n    @staticmethod\n    def {v}(x):\n        return x * 2\n\n\nclass Box:\n    item = K()\n\n\nprint(Box.item.{v}(2) + K.{v}(1), Box().item.{v}(3))\n",
+    "class K:\n    @staticmethod\n    def {v}(x):\n        return x * 2\n\n\nprint((K if True else None).{v}(2) + K.{v}(1), [K][0].{v}(3), {{'k': K}}['k'].{v}(4))\n",
+    "class K:\n    @staticmethod\n    def {v}(x):\n        return x * 2\n\n    @classmethod\n    def build(cls):\n        return cls.{v}(3) + K.{v}(1)\n\n\nprint(K.build())\n",
+]
+
+FRAMES += [
     # a module variable that only an earlier defined function reads; a second assignment between two calls
     "def flat(rows):\n    return [c + {v} for c in rows]\n\n\n{v} = 10\nprint(flat([1, 2]))\n",
     "{v} = 'a'\n\n\ndef show():\n    return {v}\n\n\nprint(show())\n{v} = 'b'\nprint(show())\n",
